@@ -185,7 +185,63 @@ def classify(m, L, s, reply_needs_db):
         io_err = ', std::io::Error>::' in recv_ty or 'std::time::SystemTimeError>::' in recv_ty
         if (prods <= IO_PRODUCERS or io_err) and not is_socket(b, s):
             return 'ok', 'class host-io: fails only on a host I/O / clock error, not on client bytes'
+    if s.what == 'index' and index_guarded_by_len(b, s):
+        return 'ok', 'class guarded-slice: the slice start is a constant and the index is dominated by a length test that makes it valid'
     return 'finding', ''
+
+
+def index_guarded_by_len(b, s):
+    """`x[K..]` (K constant) dominated by the edge of a comparison of x.len() with a constant that implies len >= K"""
+    t = s.term
+    if 'RangeFrom<' not in t['f'].get('dargs', '') or len(t['args']) < 2:
+        return False
+    start = None
+    for r in origins(b, t['args'][1]):
+        if r[0] == 'agg':
+            rv = b.blocks[r[1]]['s'][r[2]]['r']
+            vals = [const_val(x) for op in rv['ops'] for x in origins(b, op) if x[0] == 'const']
+            if len(vals) == 1 and isinstance(vals[0], int):
+                start = vals[0]
+    if start is None:
+        return False
+    recv_roots = {(r[0], r[1] if len(r) > 1 else None) for r in origins(b, t['args'][0])}
+    for bl_i, bl in enumerate(b.blocks):
+        for st in bl['s']:
+            if st['k'] != 'assign' or st['r']['k'] != 'bin' or st['r']['op'] not in ('Le', 'Lt', 'Ge', 'Gt'):
+                continue
+            op = st['r']['op']
+            sides = []
+            for k_ in ('a', 'b'):
+                o = st['r'][k_]
+                cv = [const_val(x) for x in origins(b, o) if x[0] == 'const']
+                is_len = False
+                for x in origins(b, o, stop_at_calls=True):
+                    if x[0] == 'call' and callee_decl(b.term(x[1])).split('::')[-1] == 'len':
+                        lr = {(q[0], q[1] if len(q) > 1 else None) for q in origins(b, b.term(x[1])['args'][0])}
+                        if lr & recv_roots:
+                            is_len = True
+                sides.append(('len' if is_len else ('const', cv[0]) if len(cv) == 1 and isinstance(cv[0], int) else None))
+            if sides[0] == 'len' and isinstance(sides[1], tuple):
+                c = sides[1][1]
+            elif sides[1] == 'len' and isinstance(sides[0], tuple):
+                c = sides[0][1]
+                op = {'Le': 'Ge', 'Lt': 'Gt', 'Ge': 'Le', 'Gt': 'Lt'}[op]
+            else:
+                continue
+            # normalised: len OP c ; which edge implies len >= start ?
+            for (s2, tt, ft) in bool_switches(b, local=st['l']['l']):
+                good = None
+                if op == 'Le' and c + 1 >= start:
+                    good = ft
+                elif op == 'Lt' and c >= start:
+                    good = ft
+                elif op == 'Ge' and c >= start:
+                    good = tt
+                elif op == 'Gt' and c + 1 >= start:
+                    good = tt
+                if good is not None and b.dominates(good, s.bi):
+                    return True
+    return False
 
 
 def is_socket(b, s):
